@@ -71,23 +71,36 @@ for p in sorted(glob.glob(os.path.join(root, "seeded", "*", "meta.json"))):
             caught.append("%s: rc=%s" % (cid, r.get("rc")))
     if v.get("caught_after_strengthening"):
         caught.append("after strengthening: " + v["caught_after_strengthening"])
+    rc = v.get("recheck") or {}
+    if rc:
+        sigs = sorted({sg for c in (rc.get("checks") or {}).values() for sg in c.get("signatures", [])})
+        if rc.get("detected"):
+            caught.append("re-checked at %s: caught (%s)" % (rc.get("repo_head"), ", ".join("`%s`" % x for x in sigs[:2]) or "VIOLATION"))
+        elif not v.get("neutralised"):
+            caught.append("re-checked at %s: NOT caught" % rc.get("repo_head"))
+    if v.get("adapted"):
+        caught.append("adapted: " + v["adapted"])
+    if v.get("neutralised"):
+        caught.append("neutralised: " + v["neutralised"])
     w("| %s | %s | %s | %s | %s |" % (name, m.get("property"), (m.get("title") or "").replace("|", "/")[:300],
                                      (m.get("needs_to_manifest") or "").replace("|", "/").replace("\n", " ")[:300], "<br>".join(caught) or "?"))
 
 # summary of the seeding experiment
-tot = caught_first = after = notc = 0
+tot = caught_first = after = notc = neutral = 0
 for p in sorted(glob.glob(os.path.join(root, "seeded", "*", "meta.json"))):
     m = json.load(open(p)); v = m.get("verified_by_lead", {})
     tot += 1
     rc = v.get("recheck") or {}
     now = rc.get("detected") if rc else v.get("detected")
-    if v.get("caught_after_strengthening"):
+    if v.get("neutralised"):
+        neutral += 1
+    elif v.get("caught_after_strengthening"):
         after += 1
     elif now:
         caught_first += 1
     else:
         notc += 1
-w("\nSeeded changes kept: %d. Caught by the check as it stood when the seed arrived: %d. Missed at first and caught after the check was strengthened (see the note in each row): %d. Not caught at the time of writing: %d." % (tot, caught_first, after, notc))
+w("\nSeeded changes kept: %d. Caught by the check as it stood when the seed arrived: %d. Missed at first and caught after the check was strengthened (see the note in each row): %d. Neutralised by a later repair of the repository (the seeded change no longer breaks the property on the current tree): %d. Not caught at the time of writing: %d." % (tot, caught_first, after, neutral, notc))
 
 text = "\n".join(out) + "\n"
 dp = os.path.join(root, "DESIGN.md")
